@@ -12,33 +12,37 @@ namespace ErrModel
 theorem Full_knows (k : Str) : Full.knows k = true := rfl
 theorem Full_arch : Full.arch = archHere := rfl
 
+theorem userOK_classify {u : UserTy} (h : userOK u = true) : classify u.name = .other := by
+  simp [userOK] at h; exact h.1.1
+theorem userOK_family {u : UserTy} (h : userOK u = true) : Full.family u.name = u.name := by
+  simp [userOK] at h; exact h.1.2
+theorem userOK_notStack {u : UserTy} (h : userOK u = true) : isStackKey u.name = false := by
+  simp [userOK] at h; exact h.2
+
 theorem tm_user_leaf (id : Ident) (u : UserTy) (m : Str) (h : userOK u = true) :
     typeMark Full (.leaf id (.user u m)) = ⟨u.name, []⟩ := by
-  simp [userOK] at h
   show (⟨Full.family u.name, []⟩ : TMark) = _
-  rw [h.2]
+  rw [userOK_family h]
 theorem tm_user_wrap (id : Ident) (u : UserTy) (m : Str) (c : Err) (h : userOK u = true) :
     typeMark Full (.wrap id (.user u m) c) = ⟨u.name, []⟩ := by
-  simp [userOK] at h
   show (⟨Full.family u.name, []⟩ : TMark) = _
-  rw [h.2]
+  rw [userOK_family h]
 theorem tm_user_multi (id : Ident) (u : UserTy) (m : Str) (cs : List Err) (h : userOK u = true) :
     typeMark Full (.multi id (.user u m) cs) = ⟨u.name, []⟩ := by
-  simp [userOK] at h
   show (⟨Full.family u.name, []⟩ : TMark) = _
-  rw [h.2]
+  rw [userOK_family h]
 
 theorem hop_wrap (vf : Err → Str) (id : Ident) (k : WrapKind) (c : Err) (path : List Nat)
     (h : wrapStable k (text c) = true)
-    (hc : ∃ c', decode Full (0 :: path) (encode Full vf c) = some c' ∧ shape c' = shape c ∧ stable c' = true) :
-    ∃ e', decode Full path (encode Full vf (.wrap id k c)) = some e' ∧ shape e' = shape (.wrap id k c) ∧ stable e' = true := by
+    (hc : ∃ c', decode Full (0 :: path) (encode Full vf c) = some c' ∧ shape vf c' = shape vf c ∧ stable c' = true) :
+    ∃ e', decode Full path (encode Full vf (.wrap id k c)) = some e' ∧ shape vf e' = shape vf (.wrap id k c) ∧ stable e' = true := by
   obtain ⟨c', hd, hs, hst⟩ := hc
   have ht : text c' = text c := text_eq_of_shape hs
   cases k with
   | withDomain dom =>
     refine ⟨.wrap path (.withDomain dom) c', ?_, ?_, ?_⟩
     · simp [encode, decode, hd, typeKey, Full_knows, detOf, buildWrap, decodeHid, layerDetails, extractPrefix_self, text, wrapText]
-    · simp [shape, label, storedMark, isSigOf, isMultiNode, stSigOf, detOf, text, wrapText, hs, ht]
+    · simp [shape, label, storedMark, isSigOf, isMultiNode, stSigOf, annOf, safeOf, layerStackStr, isStackKey, layerHint, layerDetail, layerIssueLink, layerKeys, layerDomain, layerTags, layerHTTP, layerGrpc, isAssertionFailure, isUnimplementedError, isWithIssueLink, timeoutLayer, layerDetails, Err.opaqueDet, detOf, text, wrapText, hs, ht] <;> try rfl
     · simp [stable, wrapStable, hst]
   | withContext tags red =>
     simp [wrapStable] at h
@@ -46,56 +50,62 @@ theorem hop_wrap (vf : Err → Str) (id : Ident) (k : WrapKind) (c : Err) (path 
     refine ⟨.wrap path (.withContext tags (if layerDetails Full vf (.wrap id (.withContext tags red) c) = [] then none
         else some (layerDetails Full vf (.wrap id (.withContext tags red) c)))) c', ?_, ?_, ?_⟩
     · simp [encode, decode, hd, typeKey, Full_knows, detOf, buildWrap, decodeHid, h1, h2]
-    · simp [shape, label, storedMark, isSigOf, isMultiNode, stSigOf, detOf, text, wrapText, hs, ht]
+    · simp [shape, label, storedMark, isSigOf, isMultiNode, stSigOf, annOf, safeOf, layerStackStr, isStackKey, layerHint, layerDetail, layerIssueLink, layerKeys, layerDomain, layerTags, layerHTTP, layerGrpc, isAssertionFailure, isUnimplementedError, isWithIssueLink, timeoutLayer, layerDetails, Err.opaqueDet, detOf, text, wrapText, hs, ht]
+      cases red with
+      | none => by_cases ht0 : List.map redactTag tags = [] <;> simp [layerDetails, ht0]
+      | some r => simp at h2; simp [layerDetails, h2]
     · simp [stable, wrapStable, hst, h1, h2]
   | withMark m t =>
     simp [wrapStable] at h
     refine ⟨.wrap path (.withMark m t) c', ?_, ?_, ?_⟩
     · simp [encode, decode, hd, typeKey, Full_knows, detOf, buildWrap, decodeHid, h]
-    · simp [shape, label, storedMark, isSigOf, isMultiNode, stSigOf, detOf, text, wrapText, hs, ht]
+    · simp [shape, label, storedMark, isSigOf, isMultiNode, stSigOf, annOf, safeOf, layerStackStr, isStackKey, layerHint, layerDetail, layerIssueLink, layerKeys, layerDomain, layerTags, layerHTTP, layerGrpc, isAssertionFailure, isUnimplementedError, isWithIssueLink, timeoutLayer, layerDetails, Err.opaqueDet, detOf, text, wrapText, hs, ht] <;> try rfl
     · simp [stable, wrapStable, hst, h]
   | fmtWrapError msg =>
     simp [wrapStable] at h
     have hr := extract_reassemble msg (text c) h
     refine ⟨.wrap path (.opaqueWrapper (extractPrefix msg (text c)).1 (detOf Full (.wrap id (.fmtWrapError msg) c) (layerDetails Full vf (.wrap id (.fmtWrapError msg) c)) .none) (extractPrefix msg (text c)).2 []) c', ?_, ?_, ?_⟩
     · simp [encode, decode, hd, typeKey, Full_knows, detOf, buildWrap, decodeHid, text, wrapText]
-    · simp [shape, label, storedMark, isSigOf, isMultiNode, stSigOf, detOf, text, hs, ht, wrapText]; exact hr
+    · simp [shape, label, storedMark, isSigOf, isMultiNode, stSigOf, annOf, safeOf, layerStackStr, isStackKey, layerHint, layerDetail, layerIssueLink, layerKeys, layerDomain, layerTags, layerHTTP, layerGrpc, isAssertionFailure, isUnimplementedError, isWithIssueLink, timeoutLayer, layerDetails, Err.opaqueDet, detOf, text, hs, ht, wrapText] <;> (first | exact hr | exact ⟨hr, by simp_all⟩ | simp_all)
     · simp [stable, wrapStable, hst, detOf]
   | opaqueWrapper p d mt hid =>
     simp [wrapStable] at h
     refine ⟨.wrap path (.opaqueWrapper p d mt hid) c', ?_, ?_, ?_⟩
     · simp [encode, decode, hd, Full_knows, buildWrap, h]
-    · simp [shape, label, storedMark, isSigOf, isMultiNode, stSigOf, detOf, text, wrapText, hs, ht]
+    · simp [shape, label, storedMark, isSigOf, isMultiNode, stSigOf, annOf, safeOf, layerStackStr, isStackKey, layerHint, layerDetail, layerIssueLink, layerKeys, layerDomain, layerTags, layerHTTP, layerGrpc, isAssertionFailure, isUnimplementedError, isWithIssueLink, timeoutLayer, layerDetails, Err.opaqueDet, detOf, text, wrapText, hs, ht] <;> try rfl
     · simp [stable, wrapStable, hst, h]
   | user u msg =>
     simp [wrapStable] at h
     obtain ⟨hu, hsty⟩ := h
-    have hcl : classify u.name = .other := by simp [userOK] at hu; exact hu.1
+    have hcl : classify u.name = .other := userOK_classify hu
+    have hns := userOK_notStack hu
+    simp [isStackKey] at hns
     have htm := tm_user_wrap id u msg c hu
     by_cases h0 : u.style = 0
     · simp [h0] at hsty
       refine ⟨.wrap path (.opaqueWrapper msg (detOf Full (.wrap id (.user u msg) c) (layerDetails Full vf (.wrap id (.user u msg) c)) .none) mtPrefix []) c', ?_, ?_, ?_⟩
       · simp [encode, decode, hd, typeKey, Full_knows, detOf, buildWrap, decodeHid, htm, hcl, text, wrapText, h0, extractPrefix_pfx]
-      · simp [shape, label, storedMark, isSigOf, isMultiNode, stSigOf, detOf, text, wrapText, hs, ht, h0, mtPrefix, mtFull, hsty]
+      · simp [shape, label, storedMark, isSigOf, isMultiNode, stSigOf, annOf, safeOf, layerStackStr, isStackKey, layerHint, layerDetail, layerIssueLink, layerKeys, layerDomain, layerTags, layerHTTP, layerGrpc, isAssertionFailure, isUnimplementedError, isWithIssueLink, timeoutLayer, layerDetails, Err.opaqueDet, detOf, text, wrapText, hs, ht, h0, mtPrefix, mtFull, hsty, htm, hns] <;> try rfl
       · simp [stable, wrapStable, hst, htm, hcl, detOf]
     · by_cases h1 : u.style = 1
       · simp [h0, h1] at hsty
         have hr := extract_reassemble msg (text c) hsty
         refine ⟨.wrap path (.opaqueWrapper (extractPrefix msg (text c)).1 (detOf Full (.wrap id (.user u msg) c) (layerDetails Full vf (.wrap id (.user u msg) c)) .none) (extractPrefix msg (text c)).2 []) c', ?_, ?_, ?_⟩
         · simp [encode, decode, hd, typeKey, Full_knows, detOf, buildWrap, decodeHid, htm, hcl, text, wrapText, h0, h1]
-        · simp [shape, label, storedMark, isSigOf, isMultiNode, stSigOf, detOf, text, hs, ht, wrapText, h0, h1]; exact hr
+        · simp [shape, label, storedMark, isSigOf, isMultiNode, stSigOf, annOf, safeOf, layerStackStr, isStackKey, layerHint, layerDetail, layerIssueLink, layerKeys, layerDomain, layerTags, layerHTTP, layerGrpc, isAssertionFailure, isUnimplementedError, isWithIssueLink, timeoutLayer, layerDetails, Err.opaqueDet, detOf, text, hs, ht, wrapText, h0, h1] <;> (first | exact hr | exact ⟨hr, by simp_all⟩ | simp_all)
         · simp [stable, wrapStable, hst, htm, hcl, detOf]
       · refine ⟨.wrap path (.opaqueWrapper [] (detOf Full (.wrap id (.user u msg) c) (layerDetails Full vf (.wrap id (.user u msg) c)) .none) mtPrefix []) c', ?_, ?_, ?_⟩
         · simp [encode, decode, hd, typeKey, Full_knows, detOf, buildWrap, decodeHid, htm, hcl, text, wrapText, h0, h1, extractPrefix_self]
-        · simp [shape, label, storedMark, isSigOf, isMultiNode, stSigOf, detOf, text, wrapText, hs, ht, h0, h1, mtPrefix, mtFull]
+        · simp [shape, label, storedMark, isSigOf, isMultiNode, stSigOf, annOf, safeOf, layerStackStr, isStackKey, layerHint, layerDetail, layerIssueLink, layerKeys, layerDomain, layerTags, layerHTTP, layerGrpc, isAssertionFailure, isUnimplementedError, isWithIssueLink, timeoutLayer, layerDetails, Err.opaqueDet, detOf, text, wrapText, hs, ht, h0, h1, mtPrefix, mtFull, htm, hns] <;> try rfl
         · simp [stable, wrapStable, hst, htm, hcl, detOf]
   | _ =>
-    simp [encode, decode, hd, typeKey, Full_knows, Full_arch, detOf, buildWrap, decodeHid, decodeList, shape, label, storedMark, isSigOf, isMultiNode, stSigOf, text, stable,
+    simp [encode, decode, hd, typeKey, Full_knows, Full_arch, detOf, buildWrap, decodeHid, decodeList, shape, label, storedMark, isSigOf, isMultiNode, stSigOf, annOf, safeOf, layerStackStr, isStackKey, layerHint, layerDetail, layerIssueLink, layerKeys, layerDomain, layerTags, layerHTTP, layerGrpc, isAssertionFailure, isUnimplementedError, isWithIssueLink, timeoutLayer, layerDetails, Err.opaqueDet, text, stable,
       wrapStable, wrapText, hs, ht, hst, extractPrefix_self, extractPrefix_pfx, mtPrefix, mtFull] at h ⊢
+    all_goals (first | done | exact h | simp_all)
 
 theorem hop_leaf (vf : Err → Str) (id : Ident) (k : LeafKind) (path : List Nat)
     (h : leafStable k = true) :
-    ∃ e', decode Full path (encode Full vf (.leaf id k)) = some e' ∧ shape e' = shape (.leaf id k) ∧ stable e' = true := by
+    ∃ e', decode Full path (encode Full vf (.leaf id k)) = some e' ∧ shape vf e' = shape vf (.leaf id k) ∧ stable e' = true := by
   cases k with
   | opaqueLeaf msg d hid =>
     simp [leafStable] at h
@@ -107,54 +117,57 @@ theorem hop_leaf (vf : Err → Str) (id : Ident) (k : LeafKind) (path : List Nat
         simp at h2
         cases hp : d.pay <;> simp_all
       | cons a r => simp
-    · simp [shape, label, storedMark, isSigOf, isMultiNode, stSigOf, detOf, text, leafText]
+    · simp [shape, label, storedMark, isSigOf, isMultiNode, stSigOf, annOf, safeOf, layerStackStr, isStackKey, layerHint, layerDetail, layerIssueLink, layerKeys, layerDomain, layerTags, layerHTTP, layerGrpc, isAssertionFailure, isUnimplementedError, isWithIssueLink, timeoutLayer, layerDetails, Err.opaqueDet, detOf, text, leafText] <;> try rfl
     · simp [stable, leafStable, h1, h2]
   | user u msg =>
     simp [leafStable] at h
-    have hcl : classify u.name = .other := by simp [userOK] at h; exact h.1
+    have hcl : classify u.name = .other := userOK_classify h
+    have hns := userOK_notStack h
+    simp [isStackKey] at hns
     have htm := tm_user_leaf id u msg h
     refine ⟨.leaf path (.opaqueLeaf msg (detOf Full (.leaf id (.user u msg)) (layerDetails Full vf (.leaf id (.user u msg))) .none) []), ?_, ?_, ?_⟩
     · simp [encode, decode, typeKey, Full_knows, detOf, buildLeaf, decodeList, htm, hcl, text, leafText]
-    · simp [shape, label, storedMark, isSigOf, isMultiNode, stSigOf, detOf, text, leafText]
+    · simp [shape, label, storedMark, isSigOf, isMultiNode, stSigOf, annOf, safeOf, layerStackStr, isStackKey, layerHint, layerDetail, layerIssueLink, layerKeys, layerDomain, layerTags, layerHTTP, layerGrpc, isAssertionFailure, isUnimplementedError, isWithIssueLink, timeoutLayer, layerDetails, Err.opaqueDet, detOf, text, leafText, htm, hns] <;> try rfl
     · simp [stable, leafStable, detOf, htm, hcl]
   | grpcStatus c m nd =>
     simp [leafStable] at h
     refine ⟨.leaf path (.grpcStatus c m nd), ?_, ?_, ?_⟩
     · simp [encode, decode, typeKey, Full_knows, detOf, buildLeaf, decodeList, h]
-    · simp [shape, label, storedMark, isSigOf, isMultiNode, stSigOf, text, leafText]
+    · simp [shape, label, storedMark, isSigOf, isMultiNode, stSigOf, annOf, safeOf, layerStackStr, isStackKey, layerHint, layerDetail, layerIssueLink, layerKeys, layerDomain, layerTags, layerHTTP, layerGrpc, isAssertionFailure, isUnimplementedError, isWithIssueLink, timeoutLayer, layerDetails, Err.opaqueDet, text, leafText] <;> try rfl
     · simp [stable, leafStable, h]
   | gogoStatus c m nd =>
     simp [leafStable] at h
     refine ⟨.leaf path (.gogoStatus c m nd), ?_, ?_, ?_⟩
     · simp [encode, decode, typeKey, Full_knows, detOf, buildLeaf, decodeList, h]
-    · simp [shape, label, storedMark, isSigOf, isMultiNode, stSigOf, text, leafText]
+    · simp [shape, label, storedMark, isSigOf, isMultiNode, stSigOf, annOf, safeOf, layerStackStr, isStackKey, layerHint, layerDetail, layerIssueLink, layerKeys, layerDomain, layerTags, layerHTTP, layerGrpc, isAssertionFailure, isUnimplementedError, isWithIssueLink, timeoutLayer, layerDetails, Err.opaqueDet, text, leafText] <;> try rfl
     · simp [stable, leafStable, h]
   | _ =>
-    simp [encode, decode, typeKey, Full_knows, Full_arch, detOf, buildLeaf, decodeHid, decodeList, shape, label, storedMark, isSigOf, isMultiNode, stSigOf, text, stable,
+    simp [encode, decode, typeKey, Full_knows, Full_arch, detOf, buildLeaf, decodeHid, decodeList, shape, label, storedMark, isSigOf, isMultiNode, stSigOf, annOf, safeOf, layerStackStr, isStackKey, layerHint, layerDetail, layerIssueLink, layerKeys, layerDomain, layerTags, layerHTTP, layerGrpc, isAssertionFailure, isUnimplementedError, isWithIssueLink, timeoutLayer, layerDetails, Err.opaqueDet, text, stable,
       leafStable, leafText] at h ⊢
+    all_goals (first | done | exact h | simp_all)
 
 theorem hop_barrier (vf : Err → Str) (id : Ident) (m : RStr) (hd : Err) (path : List Nat)
-    (hc : ∃ c', decode Full (1 :: path) (encode Full vf hd) = some c' ∧ shape c' = shape hd ∧ stable c' = true) :
-    ∃ e', decode Full path (encode Full vf (.barrier id m hd)) = some e' ∧ shape e' = shape (.barrier id m hd) ∧ stable e' = true := by
+    (hc : ∃ c', decode Full (1 :: path) (encode Full vf hd) = some c' ∧ shape vf c' = shape vf hd ∧ stable c' = true) :
+    ∃ e', decode Full path (encode Full vf (.barrier id m hd)) = some e' ∧ shape vf e' = shape vf (.barrier id m hd) ∧ stable e' = true := by
   obtain ⟨c', hd', hs, hst⟩ := hc
   refine ⟨.barrier path m c', ?_, ?_, ?_⟩
   · simp [encode, decode, typeKey, Full_knows, detOf, buildLeaf, decodeHid, decodeList, hd']
-  · simp [shape, label, storedMark, isSigOf, isMultiNode, stSigOf, text]
+  · simp [shape, label, storedMark, isSigOf, isMultiNode, stSigOf, annOf, safeOf, layerStackStr, isStackKey, layerHint, layerDetail, layerIssueLink, layerKeys, layerDomain, layerTags, layerHTTP, layerGrpc, isAssertionFailure, isUnimplementedError, isWithIssueLink, timeoutLayer, layerDetails, Err.opaqueDet, text] <;> try rfl
   · simp [stable, hst]
 
 theorem hop_second (vf : Err → Str) (id : Ident) (c s : Err) (path : List Nat)
-    (hc : ∃ c', decode Full (0 :: path) (encode Full vf c) = some c' ∧ shape c' = shape c ∧ stable c' = true)
-    (hsec : ∃ s', decode Full (1 :: path) (encode Full vf s) = some s' ∧ shape s' = shape s ∧ stable s' = true) :
-    ∃ e', decode Full path (encode Full vf (.second id c s)) = some e' ∧ shape e' = shape (.second id c s) ∧ stable e' = true := by
+    (hc : ∃ c', decode Full (0 :: path) (encode Full vf c) = some c' ∧ shape vf c' = shape vf c ∧ stable c' = true)
+    (hsec : ∃ s', decode Full (1 :: path) (encode Full vf s) = some s' ∧ shape vf s' = shape vf s ∧ stable s' = true) :
+    ∃ e', decode Full path (encode Full vf (.second id c s)) = some e' ∧ shape vf e' = shape vf (.second id c s) ∧ stable e' = true := by
   obtain ⟨c', hd, hs, hst⟩ := hc
   obtain ⟨s', hd2, hs2, hst2⟩ := hsec
   have ht : text c' = text c := text_eq_of_shape hs
   refine ⟨.second path c' s', ?_, ?_, ?_⟩
   · simp [encode, decode, typeKey, Full_knows, detOf, buildWrap, decodeHid, hd, hd2]
-  · simp [shape, label, storedMark, isSigOf, isMultiNode, stSigOf, detOf, text, hs, ht]
+  · simp [shape, label, storedMark, isSigOf, isMultiNode, stSigOf, annOf, safeOf, layerStackStr, isStackKey, layerHint, layerDetail, layerIssueLink, layerKeys, layerDomain, layerTags, layerHTTP, layerGrpc, isAssertionFailure, isUnimplementedError, isWithIssueLink, timeoutLayer, layerDetails, Err.opaqueDet, detOf, text, hs, ht] <;> try rfl
   · simp [stable, hst, hst2]
 
-theorem shapeL_length : ∀ {a b : List Err}, shapeL a = shapeL b → a.length = b.length
+theorem shapeL_length : ∀ {a b : List Err}, shapeL vf a = shapeL vf b → a.length = b.length
   | [], [], _ => rfl
   | [], _ :: _, h => by simp [shapeL] at h
   | _ :: _, [], h => by simp [shapeL] at h
@@ -164,8 +177,8 @@ theorem shapeL_length : ∀ {a b : List Err}, shapeL a = shapeL b → a.length =
 
 theorem hop_multi (vf : Err → Str) (id : Ident) (k : MultiKind) (cs : List Err) (path : List Nat)
     (h : multiStable k cs.length = true)
-    (hc : ∃ cs', decodeList Full path 2 (encodeList Full vf cs) = some cs' ∧ shapeL cs' = shapeL cs ∧ stableL cs' = true) :
-    ∃ e', decode Full path (encode Full vf (.multi id k cs)) = some e' ∧ shape e' = shape (.multi id k cs) ∧ stable e' = true := by
+    (hc : ∃ cs', decodeList Full path 2 (encodeList Full vf cs) = some cs' ∧ shapeL vf cs' = shapeL vf cs ∧ stableL cs' = true) :
+    ∃ e', decode Full path (encode Full vf (.multi id k cs)) = some e' ∧ shape vf e' = shape vf (.multi id k cs) ∧ stable e' = true := by
   obtain ⟨cs', hd, hs, hst⟩ := hc
   have ht : textList cs' = textList cs := textList_eq_of_shapeL hs
   have hl : cs'.length = cs.length := shapeL_length hs
@@ -180,7 +193,7 @@ theorem hop_multi (vf : Err → Str) (id : Ident) (k : MultiKind) (cs : List Err
   | join =>
     refine ⟨.multi path .join cs', ?_, ?_, ?_⟩
     · simp [encode, decode, typeKey, Full_knows, detOf, buildLeaf, decodeHid, hd, hcs]
-    · simp [shape, label, storedMark, isSigOf, isMultiNode, stSigOf, text, multiText, hs, ht]
+    · simp [shape, label, storedMark, isSigOf, isMultiNode, stSigOf, annOf, safeOf, layerStackStr, isStackKey, layerHint, layerDetail, layerIssueLink, layerKeys, layerDomain, layerTags, layerHTTP, layerGrpc, isAssertionFailure, isUnimplementedError, isWithIssueLink, timeoutLayer, layerDetails, Err.opaqueDet, text, multiText, hs, ht] <;> try rfl
     · simp [stable, multiStable, hst, hl']
   | opaqueLeafCauses msg d hid =>
     simp at h
@@ -190,32 +203,34 @@ theorem hop_multi (vf : Err → Str) (id : Ident) (k : MultiKind) (cs : List Err
       cases hid with
       | nil => simp at h2; cases hp : d.pay <;> simp_all
       | cons a r => simp
-    · simp [shape, label, storedMark, isSigOf, isMultiNode, stSigOf, text, multiText, hs]
+    · simp [shape, label, storedMark, isSigOf, isMultiNode, stSigOf, annOf, safeOf, layerStackStr, isStackKey, layerHint, layerDetail, layerIssueLink, layerKeys, layerDomain, layerTags, layerHTTP, layerGrpc, isAssertionFailure, isUnimplementedError, isWithIssueLink, timeoutLayer, layerDetails, Err.opaqueDet, text, multiText, hs] <;> try rfl
     · simp [stable, multiStable, hst, h1, h2, hl']
   | stdJoin =>
     refine ⟨.multi path (.opaqueLeafCauses (text (.multi id .stdJoin cs)) (detOf Full (.multi id .stdJoin cs) (layerDetails Full vf (.multi id .stdJoin cs)) .none) []) cs', ?_, ?_, ?_⟩
     · simp [encode, decode, typeKey, Full_knows, detOf, buildLeaf, hd, hcs]
-    · simp [shape, label, storedMark, isSigOf, isMultiNode, stSigOf, detOf, text, multiText, hs]
+    · simp [shape, label, storedMark, isSigOf, isMultiNode, stSigOf, annOf, safeOf, layerStackStr, isStackKey, layerHint, layerDetail, layerIssueLink, layerKeys, layerDomain, layerTags, layerHTTP, layerGrpc, isAssertionFailure, isUnimplementedError, isWithIssueLink, timeoutLayer, layerDetails, Err.opaqueDet, detOf, text, multiText, hs] <;> try rfl
     · simp [stable, multiStable, hst, detOf, hl']
   | fmtWrapErrors m =>
     refine ⟨.multi path (.opaqueLeafCauses (text (.multi id (.fmtWrapErrors m) cs)) (detOf Full (.multi id (.fmtWrapErrors m) cs) (layerDetails Full vf (.multi id (.fmtWrapErrors m) cs)) .none) []) cs', ?_, ?_, ?_⟩
     · simp [encode, decode, typeKey, Full_knows, detOf, buildLeaf, hd, hcs]
-    · simp [shape, label, storedMark, isSigOf, isMultiNode, stSigOf, detOf, text, multiText, hs]
+    · simp [shape, label, storedMark, isSigOf, isMultiNode, stSigOf, annOf, safeOf, layerStackStr, isStackKey, layerHint, layerDetail, layerIssueLink, layerKeys, layerDomain, layerTags, layerHTTP, layerGrpc, isAssertionFailure, isUnimplementedError, isWithIssueLink, timeoutLayer, layerDetails, Err.opaqueDet, detOf, text, multiText, hs] <;> try rfl
     · simp [stable, multiStable, hst, detOf, hl']
   | user u m =>
     simp at h
-    have hcl : classify u.name = .other := by simp [userOK] at h; exact h.1
+    have hcl : classify u.name = .other := userOK_classify h
+    have hns := userOK_notStack h
+    simp [isStackKey] at hns
     have htm := tm_user_multi id u m cs h
     refine ⟨.multi path (.opaqueLeafCauses (text (.multi id (.user u m) cs)) (detOf Full (.multi id (.user u m) cs) (layerDetails Full vf (.multi id (.user u m) cs)) .none) []) cs', ?_, ?_, ?_⟩
     · simp [encode, decode, typeKey, Full_knows, detOf, buildLeaf, hd, hcs, htm, hcl]
-    · simp [shape, label, storedMark, isSigOf, isMultiNode, stSigOf, detOf, text, multiText, hs, htm]
+    · simp [shape, label, storedMark, isSigOf, isMultiNode, stSigOf, annOf, safeOf, layerStackStr, isStackKey, layerHint, layerDetail, layerIssueLink, layerKeys, layerDomain, layerTags, layerHTTP, layerGrpc, isAssertionFailure, isUnimplementedError, isWithIssueLink, timeoutLayer, layerDetails, Err.opaqueDet, detOf, text, multiText, hs, htm, htm, hns] <;> try rfl
     · simp [stable, multiStable, hst, detOf, htm, hcl, hl']
 
 mutual
 /-- One hop between knowing processes: decoding succeeds, the visible tree and the
     text at every node are unchanged, and the result is stable again. -/
 theorem hop_ok (vf : Err → Str) : (e : Err) → (path : List Nat) → stable e = true →
-    ∃ e', decode Full path (encode Full vf e) = some e' ∧ shape e' = shape e ∧ stable e' = true
+    ∃ e', decode Full path (encode Full vf e) = some e' ∧ shape vf e' = shape vf e ∧ stable e' = true
   | .leaf id k, path, h => hop_leaf vf id k path (by simpa [stable] using h)
   | .barrier id m hd, path, h =>
     hop_barrier vf id m hd path (hop_ok vf hd (1 :: path) (by simpa [stable] using h))
@@ -229,7 +244,7 @@ theorem hop_ok (vf : Err → Str) : (e : Err) → (path : List Nat) → stable e
     simp [stable] at h
     exact hop_multi vf id k cs path h.1 (hop_ok_list vf cs path 2 h.2)
 theorem hop_ok_list (vf : Err → Str) : (cs : List Err) → (path : List Nat) → (i : Nat) → stableL cs = true →
-    ∃ cs', decodeList Full path i (encodeList Full vf cs) = some cs' ∧ shapeL cs' = shapeL cs ∧ stableL cs' = true
+    ∃ cs', decodeList Full path i (encodeList Full vf cs) = some cs' ∧ shapeL vf cs' = shapeL vf cs ∧ stableL cs' = true
   | [], _, _, _ => ⟨[], by simp [encodeList, decodeList], rfl, rfl⟩
   | e :: r, path, i, h => by
     simp [stableL] at h
